@@ -13,6 +13,9 @@ EXPLANATION = (
     "acquisitions and its true edge leaves. Decides termination/lock hygiene of list (and StringBuf) comparison and "
     "concatenation, not the results of operation histories."
 )
+EXPLANATION += (
+    ' M4 swap returns early for i == j and addresses both elements through offset_of. M5 every value ErasedList::concat returns is the list created by ErasedList::new in that call (never a clone of an operand handle, which would share storage with it).'
+)
 ASSUMPTIONS = [
     "std::sync::Mutex is not re-entrant; a second lock() on a held mutex in one thread deadlocks or panics",
     "origin tracing is flow-insensitive over single-definition MIR temporaries; user variables that are re-assigned are treated as distinct roots",
